@@ -213,7 +213,7 @@ def run_and_judge(specs):
 def _witness(spec, res, verdict):
     sched = [e for e in res.get("events", []) if e[0] in ("enc", "w", "wraise", "d", "dres", "status", "opened", "connect_call")]
     sched = [[x if not isinstance(x, list) else f"{len(x)} packets" for x in e] for e in sched][:60]
-    key = f"tx:{verdict[0]}" + (f":{spec['kind']}" if verdict[0] != "interleaved" else "")
+    key = f"tx:{verdict[0]}" + (f":{spec['kind']}" if verdict[0] not in ("interleaved", "no-reconnect", "hang") else "")
     return {"key": key, "kind": "tx", "spec": spec, "schedule": sched,
             "bytelog": res.get("bytelog", [])[:40],
             "what": f"{spec['kind']} client, sends {[s.get('what', '?') for s in spec['sends']]}, status callback "
